@@ -2212,3 +2212,22 @@ def m_map_collect(ex, st, call):
 
 
 _prioritise({'m_concrete_map', 'm_map_collect'})
+
+
+@model(r'^Vec::pop$')
+def m_abs_vec_pop(ex, st, call):
+    r = call.args[0]
+    v = deref(ex, st, r)
+    if not isinstance(v, AbsVec):
+        return None
+
+    def some(s):
+        vv = deref(ex, s, r)
+        s.event('abs_pop', vv.tok)
+        ex.store(s, r.addr, r.path, AbsVec(vv.n - 1, (vv.tok, 'pop', len(s.events)), vv.elem_ty))
+        elem = ex.fresh(s, vv.elem_ty, 'popped') if vv.elem_ty else Opaque('elem')
+        return ex.ret(s, call, ex.some(elem))
+    return two_way(ex, st, v.n != 0, some, lambda s: ex.ret(s, call, ex.none()))
+
+
+_prioritise({'m_abs_vec_pop'})
